@@ -35,7 +35,7 @@ def find_core_tokens(string, root):
     matches = []
     escaped = False
     in_delimiter_run = None
-    in_image = False
+    image_marker = None  # position of the last unescaped '!'
     start = 0
     i = 0
     code_match = code_pattern.search(string)
@@ -62,19 +62,16 @@ def find_core_tokens(string, root):
             start = i
         if not escaped:
             if c == '[':
-                if not in_image:
+                # an image begins with '![': the exclamation mark stands directly before the bracket
+                if image_marker != i - 1:
                     delimiters.append(Delimiter(i, i + 1, string))
                 else:
                     delimiters.append(Delimiter(i - 1, i + 1, string))
-                    in_image = False
             elif c == '!':
-                in_image = True
+                image_marker = i
             elif c == ']':
-                in_image = False
                 i = find_link_image(string, i, delimiters, matches, root)
                 code_match = code_pattern.search(string, i)
-            elif in_image:
-                in_image = False
         else:
             escaped = False
         i += 1
